@@ -399,8 +399,15 @@ def r_fallback_every_tick(ctx):
         if fcfg.exit.id in fcfg.reachable_from(fcfg.entry.id, avoid=[cn.id], follow_exc=False):
             ctx.violation('%s:fallback-helper-skips-test' % ff.qualname, ff.loc(), 'the fallback helper can return without evaluating the majority test', instance='fallback helper always tests')
     # first LEADER test in the tick
-    leader_conds = [n for n in cfg.nodes if n.kind == 'cond' and isinstance(n.ast, ast.Compare) and P.self_attr(n.ast.left, t.self_name) == R.raftState
-                    and R.is_state_const(n.ast.comparators[0], 'LEADER') and isinstance(n.ast.ops[0], ast.Eq)]
+    leader_conds = []
+    st_key = 'self.' + R.raftState
+    ld_key = '%s.LEADER' % R.state_class
+    for n in cfg.nodes:
+        if n.kind != 'cond':
+            continue
+        lit = ex.edge_literal(n, True)      # also sees through `self._isLeader()`
+        if lit is not None and lit[0] == 'eq' and {lit[1].key, lit[2].key} == {st_key, ld_key}:
+            leader_conds.append(n)
     ctx.require(leader_conds, 'no `state == LEADER` block in the tick')
     first = min(leader_conds, key=lambda n: n.lineno)
     tt = [d for d, l in first.succ if l == ('cond', True)][0]
